@@ -188,8 +188,18 @@ def check_run(ctx, focus, ast, c, s, out, how, caps_cfg, stats):
                 kinds = {("cached" if i["status_was_cached"] else "ran") for i in infos}
                 if "cached" in kinds:
                     ctx.count("duplicates_served_without_submit")
-            if len(outs) > 1:
-                ctx.violation("duplicates-differ", "jobs of one call settled differently: %r" % (sorted(outs),), wit)
+            # "every duplicate receives the same result or error": a job that was served from its twin (collapsed onto
+            # the in-flight call or answered from the execution's results) must settle like a twin that was not served.
+            # Jobs that were each handled on their own (e.g. one rejected for its own unknown executor before any
+            # twin existed) are not duplicates of each other; two submissions of one call are call-submitted-twice.
+            served = [i for i in infos if i["status_was_cached"]]
+            own = {i["settled"] for i in infos if not i["status_was_cached"]}
+            for i in served:
+                if own and i["settled"] not in own:
+                    ctx.violation("duplicates-differ", "a duplicate settled as %r, its twin(s) as %r" % (i["settled"], sorted(own)), wit)
+                    break
+            if len({i["settled"] for i in served}) > 1:
+                ctx.violation("duplicates-differ", "duplicates of one call settled differently: %r" % (sorted(outs),), wit)
         # one Job per (parent job object, expression hash)
         seen = collections.Counter()
         for jid in c.job_order:
